@@ -142,6 +142,7 @@ type interpreter struct {
 	solver  *Solver
 
 	pc      []*Term
+	pcSet   map[*Term]bool
 	prefix  []decision
 	pos     int
 	taken   []decision
@@ -256,16 +257,22 @@ func (i *interpreter) branch(c *Term) bool {
 	if c == TFalse {
 		return false
 	}
+	if i.pcSet[c] {
+		return true
+	}
+	if i.pcSet[Not(c)] {
+		return false
+	}
 	i.symbolicBranches++
 	if i.pos < len(i.prefix) {
 		d := i.prefix[i.pos]
 		i.pos++
 		i.taken = append(i.taken, d)
 		if d.c == 0 {
-			i.pc = append(i.pc, c)
+			i.addPC(c)
 			return true
 		}
-		i.pc = append(i.pc, Not(c))
+		i.addPC(Not(c))
 		return false
 	}
 	i.pos++
@@ -291,7 +298,7 @@ func (i *interpreter) branch(c *Term) bool {
 			i.noteInconclusive("solver unknown on branch feasibility (side not explored)")
 			i.taken = append(i.taken, decision{mineChoice, 1})
 		}
-		i.pc = append(i.pc, mine)
+		i.addPC(mine)
 		return mineChoice == 0
 	}
 	// no usable model: ask about both sides
@@ -313,17 +320,17 @@ func (i *interpreter) branch(c *Term) bool {
 		alt := append(append([]decision(nil), i.taken...), decision{1, 2})
 		i.run.push(workItem{alt, mf})
 		i.taken = append(i.taken, decision{0, 2})
-		i.pc = append(i.pc, c)
+		i.addPC(c)
 		i.setModel(mt)
 		return true
 	case rt == Sat:
 		i.taken = append(i.taken, decision{0, 1})
-		i.pc = append(i.pc, c)
+		i.addPC(c)
 		i.setModel(mt)
 		return true
 	case rf == Sat:
 		i.taken = append(i.taken, decision{1, 1})
-		i.pc = append(i.pc, nc)
+		i.addPC(nc)
 		i.setModel(mf)
 		return false
 	}
@@ -363,17 +370,34 @@ func (i *interpreter) assume(c *Term) {
 		panic(pathEnd{kind: Pruned, msg: "assume false"})
 	}
 	if v, ok := i.evalModel(c); ok && v == 1 {
-		i.pc = append(i.pc, c)
+		i.addPC(c)
 		return
 	}
 	switch i.check(c) {
 	case Sat:
-		i.pc = append(i.pc, c)
+		i.addPC(c)
 		i.setModel(i.fetchModel())
 	case Unsat:
 		panic(pathEnd{kind: Pruned, msg: "assume infeasible"})
 	default:
 		panic(pathEnd{kind: Inconclusive, msg: "solver unknown on assume"})
+	}
+}
+
+func (i *interpreter) addPC(t *Term) {
+	if i.pcSet == nil {
+		i.pcSet = map[*Term]bool{}
+	}
+	if i.pcSet[t] {
+		return
+	}
+	i.pcSet[t] = true
+	i.pc = append(i.pc, t)
+	// conjunctions imply their parts
+	if t.op == OpAnd {
+		for _, a := range t.args {
+			i.pcSet[a] = true
+		}
 	}
 }
 
